@@ -896,6 +896,16 @@ func (x *affExec) stmt(s ast.Stmt, st *affState) []*affState {
 			vals := make([]aval, len(v.Rhs))
 			skip := make([]bool, len(v.Rhs))
 			for i := range v.Rhs {
+				// x = slices.Grow(x, n) / slices.Clip(x): capacity only, the elements stay
+				if c, ok := v.Rhs[i].(*ast.CallExpr); ok && len(c.Args) >= 1 && v.Tok == token.ASSIGN {
+					switch funcFullName(calleeObj(x.info, c)) {
+					case "slices.Grow", "slices.Clip":
+						if sameExpr(v.Lhs[i], c.Args[0]) {
+							skip[i] = true
+							continue
+						}
+					}
+				}
 				// append to X.Points
 				if c, ok := v.Rhs[i].(*ast.CallExpr); ok {
 					if b, ok := calleeObj(x.info, c).(*types.Builtin); ok && b.Name() == "append" {
